@@ -5,6 +5,7 @@ import (
 	"context"
 	"encoding/json"
 	"fmt"
+	"strings"
 	"time"
 
 	"github.com/SAP/go-dblib/tds"
@@ -135,7 +136,7 @@ func (c01) Gen(r *Rand, idx int, tier string) interface{} {
 		m.OnZero = p.Both && r.Bool()
 		if r.Pct(15) {
 			m.Abort = 1 + r.Intn(body-1)
-			m.AbortKind = Pick(r, []string{"", "", "queue-dead", "reset"})
+			m.AbortKind = Pick(r, []string{"", "", "queue-dead", "reset", "bad-reset"})
 		}
 		if len(m.Pkgs) == 1 && r.Pct(60) {
 			m.Split = "send"
@@ -338,6 +339,15 @@ func (c01) Run(plan interface{}, schedSeed uint64, replay []simrt.Choice, lenien
 					if err := ch.QueuePackage(dead, t); err == nil {
 						aborted = append(aborted, fmt.Sprintf("message %d: QueuePackage with a cancelled context reported success", mi))
 					}
+				case "bad-reset":
+					// a package whose encoding fails after its first bytes were queued (a statement too long for the
+					// narrow DYNAMIC token), then Reset: nothing of it may remain
+					bad := tds.NewDynamicPackage(false)
+					bad.Type, bad.ID, bad.Stmt = tds.TDS_DYN_PREPARE, "id", strings.Repeat("s", 40000)
+					if err := ch.QueuePackage(ctx, bad); err == nil {
+						aborted = append(aborted, fmt.Sprintf("message %d: queueing a package that cannot be encoded reported success", mi))
+					}
+					ch.Reset()
 				case "reset":
 					if err := ch.QueuePackage(ctx, t); err != nil {
 						sendErrs = append(sendErrs, fmt.Sprintf("message %d: queueing the package to be abandoned: %v", mi, err))
